@@ -1,2 +1,2 @@
-(* C13 — stub *)
+(* C13 — proofs (in progress) *)
 From Zap Require Import Base.Wire C13.Model.
